@@ -1129,6 +1129,10 @@ func vcCorpusNLRIs() []vC04NLRICase {
 	add("corpus/label0-above-bottom", RF_IPv4_MPLS, l0, e0)
 	l1, e1 := NewLabeledVPNIPAddrPrefix(p6, *NewMPLSLabelStack(100, 200, 300), rd)
 	add("corpus/vpnv6-3-labels-128", RF_IPv6_VPN, l1, e1)
+	// an RD of a type the code does not know must come back with its six value octets
+	lu, eu := NewLabeledVPNIPAddrPrefix(p4, *NewMPLSLabelStack(100), &RouteDistinguisherUnknown{
+		DefaultRouteDistinguisher: DefaultRouteDistinguisher{Type: 9}, Value: []byte{1, 2, 3, 4, 5, 6}})
+	add("corpus/vpnv4-unknown-rd-type", RF_IPv4_VPN, lu, eu)
 	en, e2 := NewEncapNLRI(netip.MustParseAddr("192.0.2.1"))
 	add("corpus/encap", RF_IPv4_ENCAP, en, e2)
 	add("corpus/evpn-ipmsi", RF_EVPN, NewEVPNIPMSIRoute(rd, 7, NewTwoOctetAsSpecificExtended(EC_SUBTYPE_ROUTE_TARGET, 65000, 1, true)), nil)
@@ -1239,6 +1243,7 @@ func vcFamilyOracle(o *vOut, r *vRand) {
 		seen[k] = true
 		o.fail(class, detail)
 	}
+	mp := &vcMpCorr{o: o}
 	for round := 0; round < rounds; round++ {
 		nl := append(append(vcCorpusNLRIs(), vcBoundaryNLRIs()...), vC04GenNLRIs(r)...)
 		fams := map[Family]bool{}
@@ -1266,6 +1271,9 @@ func vcFamilyOracle(o *vOut, r *vRand) {
 					}
 					if strings.HasPrefix(c.name, "bnd/") {
 						o.stat("fam_bnd_nlri", 1)
+					}
+					if err == nil {
+						mp.nlriAsks(r, c.family, ap, opts, c.nlri) // the model answers for its families
 					}
 					if err != nil {
 						o.stat("fam_nlri_serialize_error:"+c.family.String(), 1)
@@ -1354,6 +1362,9 @@ func vcFamilyOracle(o *vOut, r *vRand) {
 							return
 						}
 						o.stat("fam_attr:"+kind, 1)
+						if fam != 0 && !use2 {
+							mp.attrAsks(r, fam, ap, use2, opts, c.attr) // the model answers for its families
+						}
 						if c.attr.Len(opts...) != len(b) {
 							switch {
 							case root != "":
